@@ -32,5 +32,25 @@ def main(argv=None):
     return code
 
 
+def sweep_scratch():
+    """Remove scratch directories left by worker processes that were
+    terminated with their pool (verif-<pid>-*, pid no longer alive)."""
+    import re
+    import shutil
+    root = os.environ.get('VERIF_SCRATCH', '/var/tmp')
+    try:
+        names = os.listdir(root)
+    except OSError:
+        return
+    for name in names:
+        m = re.match(r'verif-(\d+)-', name)
+        if m and not os.path.exists('/proc/%s' % m.group(1)):
+            shutil.rmtree(os.path.join(root, name), ignore_errors=True)
+
+
 if __name__ == '__main__':
-    sys.exit(main())
+    try:
+        rc = main()
+    finally:
+        sweep_scratch()
+    sys.exit(rc)
